@@ -1597,6 +1597,201 @@ def r7(ctx: RuleCtx) -> None:
     ctx.floor(f'{qn}: digest-named files written', n, 1)
 
 
+# ---------------------------------------------------------------------------
+# R5c  generator(): user extra_args are spliced after the path rewrites (must-not-flow, flow-sensitive by CFG order)
+
+INTERP = 'mesonbuild/interpreter/interpreter.py'
+
+
+def _method(ctx: RuleCtx, mod: Module, cls: str, name: str) -> T.Optional[ast.AST]:
+    r = ctx.repo.find_method(mod, mod.cls(cls), name)
+    return r[2] if r is not None else None
+
+
+def _ctx_origins(fl: OFlow, root: ast.AST, node: ast.AST) -> T.Set[str]:
+    """Origins of `node` evaluated inside the comprehensions of `root` that enclose it (their variables are scoped)."""
+    parents: T.Dict[int, ast.AST] = {}
+    for n in ast.walk(root):
+        for ch in ast.iter_child_nodes(n):
+            parents[id(ch)] = n
+    chain = []
+    cur = parents.get(id(node))
+    while cur is not None:
+        if isinstance(cur, (ast.ListComp, ast.SetComp, ast.GeneratorExp, ast.DictComp)):
+            chain.append(cur)
+        cur = parents.get(id(cur))
+    env: T.Dict[str, T.Any] = {}
+    for comp in reversed(chain):
+        env = fl._comp_env(comp.generators, env)
+    return fl.origins(node, env)
+
+
+def _helper_summary(h: ast.AST) -> T.Tuple[T.Set[str], T.Set[str]]:
+    """(parameters whose elements go through a str transform, `get_extra_args`-like origins of the returned value)."""
+    fl = OFlow(h)
+    rewritten: T.Set[str] = set()
+    for c in ast.walk(h):
+        if isinstance(c, ast.Call) and isinstance(c.func, ast.Attribute) and c.func.attr in STR_TRANSFORMS:
+            rewritten |= {strip_proj(o)[6:] for o in _ctx_origins(fl, h, c.func.value) if o.startswith('param:') and strip_proj(o) != 'param:self'}
+    ret: T.Set[str] = set()
+    for st in walk_no_nested(h):
+        if isinstance(st, ast.Return) and st.value is not None:
+            ret |= {strip_proj(o) for o in fl.origins(st.value) if strip_proj(o).endswith('.get_extra_args')}
+    return rewritten, ret
+
+
+def r5c(ctx: RuleCtx) -> None:
+    mod = ctx.repo.module(NINJA)
+    cls, qn = 'NinjaBackend', 'NinjaBackend.generate_genlist_for_target'
+    fn = mod.func(qn)
+    fl = OFlow(fn)
+    cfg = CFG(fn)
+    heads = cfg.find(lambda n: n.kind == 'iter')
+    sources: T.List[T.Tuple[ast.Call, str]] = []       # (call, origin label of its result)
+    rewriters: T.List[T.Tuple[ast.Call, T.List[ast.AST], str]] = []   # (call, rewritten inputs, description)
+    for c in walk_no_nested(fn):
+        if not isinstance(c, ast.Call):
+            continue
+        cn = call_name(c) or ''
+        if isinstance(c.func, ast.Attribute) and c.func.attr == 'get_extra_args':
+            sources.append((c, f'call:{cn}'))
+        if isinstance(c.func, ast.Attribute) and c.func.attr in STR_TRANSFORMS and not isinstance(c.func.value, ast.Constant):
+            rewriters.append((c, [c.func.value], f'.{c.func.attr}()'))
+        if isinstance(c.func, ast.Attribute) and isinstance(c.func.value, ast.Name) and c.func.value.id == 'self':
+            h = _method(ctx, mod, cls, c.func.attr)
+            if h is None:
+                continue
+            rew, ret = _helper_summary(h)
+            if ret:
+                sources.append((c, f'call:{cn}'))
+            if rew:
+                params = [a.arg for a in h.args.args if a.arg != 'self']     # type: ignore[attr-defined]
+                bound = dict(zip(params, c.args))
+                bound.update({k.arg: k.value for k in c.keywords if k.arg})
+                rewriters.append((c, [bound[p] for p in rew if p in bound], f'{cn}() rewrites its {sorted(rew)}'))
+    ctx.floor(f'{qn}: places where the user extra_args enter the command', len(sources), 1)
+    ctx.floor(f'{qn}: string rewrites of the generator argument list', len(rewriters), 4)
+    for sc, label in sources:
+        snodes = cfg.node_containing(sc)
+        hits = []
+        for wc, inputs, desc in rewriters:
+            if wc is sc or not any(label in {strip_proj(o) for o in _ctx_origins(fl, fn, i)} for i in inputs):
+                continue          # the rewrite never sees the spliced list (flow-insensitive pre-filter)
+            feeding: T.List[ast.AST] = list(inputs)      # within one statement: the input and the iterables that bind its comprehension variables
+            names = {x.id for i in inputs for x in ast.walk(i) if isinstance(x, ast.Name)}
+            for comp in ast.walk(fn):
+                if isinstance(comp, (ast.ListComp, ast.SetComp, ast.GeneratorExp, ast.DictComp)) and any(x is wc for x in ast.walk(comp)):
+                    feeding += [g.iter for g in comp.generators if names & {x.id for x in ast.walk(g.target) if isinstance(x, ast.Name)}]
+            nested = any(x is sc for i in feeding for x in ast.walk(i))
+            wnodes = cfg.node_containing(wc)
+            after = any(cfg.can_reach(s_, w_, avoid=heads) for s_ in snodes for w_ in wnodes if s_ is not w_)
+            if nested or after:
+                hits.append((wc, desc))
+        for wc, desc in hits:
+            ctx.violation(mod, qn, f'{norm(sc)} -> {norm(wc)}',
+                          f'the user-supplied extra_args spliced by {short(sc, 50)} afterwards pass {short(wc, 60)} ({desc}): backslashes and @...@ texts inside '
+                          'generator.process(extra_args: ...) strings would be rewritten; the rewrite whitelist applies to the generator\'s own arguments only', wc)
+        if not hits:
+            ctx.ok(f'{qn}: no string rewrite runs after {short(sc, 60)} on its result')
+    # the spliced list is what is handed to as_meson_exe_cmdline
+    calls = [c for c in walk_no_nested(fn) if isinstance(c, ast.Call) and call_method(c) == 'as_meson_exe_cmdline']
+    ctx.floor(f'{qn}: as_meson_exe_cmdline calls', len(calls), 1)
+    for c in calls:
+        a = c.args[1] if len(c.args) > 1 else kwarg(c, 'cmd_args')
+        labels = {lab for _, lab in sources}
+        ctx.require(a is not None and bool(labels & {strip_proj(o) for o in fl.origins(a)}), f'{qn}: the command arguments given to as_meson_exe_cmdline contain the extra_args splice',
+                    mod, qn, c, f'the arguments given to as_meson_exe_cmdline ({short(a)}) do not come from the @EXTRA_ARGS@ splice: user extra_args are dropped', c)
+
+
+# ---------------------------------------------------------------------------
+# R8  add_project_arguments / add_global_arguments: lists stored per language are not shared when mutated in place
+
+INPLACE = {'extend', 'append', 'insert', 'remove', 'pop', 'clear', 'sort', 'reverse'}
+
+
+def _fresh(e: ast.AST, fl: OFlow, loop_nodes: T.Set[int], depth: int = 0) -> T.Optional[bool]:
+    """Is the value of e a list allocated by this evaluation (True), an alias of an existing object (False), unknown (None)?"""
+    if isinstance(e, (ast.List, ast.ListComp)):
+        return True
+    if isinstance(e, ast.BinOp) and isinstance(e.op, (ast.Add, ast.Mult)):
+        return True
+    if isinstance(e, ast.Subscript) and isinstance(e.slice, ast.Slice):
+        return True
+    if isinstance(e, ast.Call):
+        cn = call_name(e) or ''
+        if cn in ('list', 'sorted', 'copy.copy', 'copy.deepcopy', 'copy', 'deepcopy') or (isinstance(e.func, ast.Attribute) and e.func.attr == 'copy' and not e.args):
+            return True
+        return None
+    if isinstance(e, ast.IfExp):
+        a, b = _fresh(e.body, fl, loop_nodes, depth), _fresh(e.orelse, fl, loop_nodes, depth)
+        return None if a is None or b is None else (a and b)
+    if isinstance(e, ast.Name):
+        if e.id in fl.params:
+            return False
+        defs = fl.defs.get(e.id, [])
+        if len(defs) == 1 and depth < 3 and id(defs[0]) in loop_nodes:
+            return _fresh(defs[0], fl, loop_nodes, depth + 1)      # bound in the same loop body, once
+        return False if defs else None
+    if isinstance(e, (ast.Attribute, ast.Subscript)):
+        return False
+    return None
+
+
+def r8(ctx: RuleCtx) -> None:
+    mod = ctx.repo.module(INTERP)
+    qn = 'Interpreter._add_arguments'
+    fn = mod.func(qn)
+    fl = OFlow(fn)
+    params = [a.arg for a in fn.args.args if a.arg != 'self']
+    # the store: the parameter that is written by subscript / setdefault
+    stores: T.List[T.Tuple[ast.AST, str, ast.AST, ast.AST]] = []     # (node, store name, stored value, statement)
+    mutators: T.List[ast.AST] = []
+
+    def store_of(e: ast.AST) -> T.Optional[str]:
+        """e denotes an element of a parameter dict: D[k], D.get(k, ...), D.setdefault(k, ...), or a local bound to one."""
+        if isinstance(e, ast.Subscript) and isinstance(e.value, ast.Name) and e.value.id in params and not isinstance(e.slice, ast.Slice):
+            return e.value.id
+        if isinstance(e, ast.Call) and isinstance(e.func, ast.Attribute) and e.func.attr in ('get', 'setdefault') and isinstance(e.func.value, ast.Name) and e.func.value.id in params:
+            return e.func.value.id
+        if isinstance(e, ast.Name) and e.id not in params:
+            for d in fl.defs.get(e.id, []):
+                r = store_of(d) if not isinstance(d, ast.Name) else None
+                if r:
+                    return r
+        return None
+    for st in walk_no_nested(fn):
+        if isinstance(st, ast.Assign):
+            for t in st.targets:
+                if isinstance(t, ast.Subscript) and isinstance(t.value, ast.Name) and t.value.id in params:
+                    stores.append((t, t.value.id, st.value, st))
+        elif isinstance(st, ast.AugAssign) and store_of(st.target):
+            mutators.append(st)           # list += is in place
+        elif isinstance(st, ast.Call) and isinstance(st.func, ast.Attribute):
+            if st.func.attr in INPLACE and store_of(st.func.value):
+                mutators.append(st)
+            if st.func.attr == 'setdefault' and isinstance(st.func.value, ast.Name) and st.func.value.id in params and len(st.args) == 2:
+                stores.append((st, st.func.value.id, st.args[1], st))
+            if st.func.attr == 'update' and isinstance(st.func.value, ast.Name) and st.func.value.id in params:
+                raise Undecided(f'{qn}: {short(st)} writes the per-language store in bulk')
+    ctx.floor(f'{qn}: writes into the per-language argument store', len(stores), 1)
+    loops = [n for n in walk_no_nested(fn) if isinstance(n, (ast.For, ast.While))]
+    for node, dname, val, st in stores:
+        inner = [l for l in loops if any(x is st or x is node for x in ast.walk(l))]
+        loop_nodes = {id(x) for x in ast.walk(inner[-1])} if inner else {id(x) for x in ast.walk(fn)}
+        fr = _fresh(val, fl, loop_nodes)
+        if fr is True:
+            ctx.ok(f'{qn}: {short(st, 70)} stores a list allocated for this key')
+        elif not mutators:
+            ctx.ok(f'{qn}: {short(st, 70)} may share a list, but no stored list is modified in place here')
+        elif fr is None:
+            raise Undecided(f'{qn}: cannot tell whether `{short(val)}` is a fresh list while {[short(m, 40) for m in mutators]} modify stored lists in place')
+        else:
+            ctx.violation(mod, qn, f'{norm(st)} with {"; ".join(norm(m) for m in mutators)}',
+                          f'`{short(st, 60)}` stores an existing list object (the caller\'s argument list) under every language of the call, and '
+                          f'{[short(m, 50) for m in mutators]} modifies stored lists in place: a later add_project_arguments(language: one of them) '
+                          'also changes the arguments of the other languages (and the caller\'s list)', st)
+
+
 RULES = [
     Rule('C03.R1a', 'build statements: every value passes ninja_quote (and qf unless raw / &&)', r1a),
     Rule('C03.R1b', 'rules: command/args only through _quoter; _quoter table; shell vs rsp quoter', r1b),
@@ -1611,5 +1806,7 @@ RULES = [
     Rule('C03.R5a', 'eval_custom_target_command: only whitelisted rewrites', r5a),
     Rule('C03.R5b', 'escape_extra_args: backslash doubling under the -D//D guard, per-target args only', r5b),
     Rule('C03.R7', 'exe-wrapper response file: name digest is taken over the text written', r7),
+    Rule('C03.R5c', 'generator(): user extra_args are spliced after every string rewrite of the argument list', r5c),
+    Rule('C03.R8', 'per-language argument stores: no shared list object that is modified in place', r8),
     Rule('C03.R6', 'newline in an argument forces the pickled wrapper with the unmodified serialisation', r6),
 ]
